@@ -92,3 +92,41 @@ def bfs(make, ops_of, step, canon, max_depth, max_states=None, max_violations=5,
     if not r.caps_hit:
         r.depth_completed = max_depth if r.hit_depth_bound else r.max_depth
     return r
+
+
+def snapshot(obj, depth=3):
+    """Normalised picture of an object's whole instance state, for de-duplicating BFS states:
+    two histories may be merged only if the implementation state agrees, not just the reference
+    model (a hidden field that differs means different futures).  Containers are walked,
+    callables / locks / unknown objects are reduced to their type (and size / flag where they
+    have one), exceptions to type + text."""
+    return _snap(obj, depth, True)
+
+
+def _snap(v, depth, top=False):
+    if isinstance(v, (int, float, str, bytes, type(None), bool)):
+        return v
+    if isinstance(v, BaseException):
+        return (type(v).__name__, str(v))
+    if isinstance(v, dict):
+        return ('dict', tuple(sorted(((_snap(k, depth - 1), _snap(x, depth - 1)) for k, x in v.items()), key=repr)))
+    if isinstance(v, (list, tuple)):
+        return (type(v).__name__, tuple(_snap(x, depth - 1) for x in v))
+    if isinstance(v, (set, frozenset)):
+        return ('set', tuple(sorted((_snap(x, depth - 1) for x in v), key=repr)))
+    d = getattr(v, '__dict__', None)
+    name = type(v).__name__
+    if d is not None and depth > 0 and (top or name in _WALK):
+        return (name, tuple((k, _snap(x, depth - 1)) for k, x in sorted(d.items()) if not k.startswith('_vt_')))
+    # synchronisation objects of the scheduler: their observable value
+    for attr in ('_value', '_flag', '_locked', '_owner'):
+        if hasattr(v, attr):
+            x = getattr(v, attr)
+            return (name, attr, x if isinstance(x, (int, bool, type(None))) else (x is not None))
+    try:
+        return (name, len(v))
+    except TypeError:
+        return (name,)
+
+
+_WALK = {'FunctionContainer', 'TaskSemaphore', 'SlidingWindowSemaphore', 'TransferMeta', 'CallArgs'}
